@@ -57,6 +57,8 @@ def tiny_cases(tier):
     out = []
     for rs in rowsets:
         for bi, bounds in enumerate(BOUNDS2):
+            if bi >= 4 and len(rs) == 2 and tier == "quick":
+                continue   # fractional bounds: with at most one row in the quick tier
             for bools in BOOLS2:
                 for mv in (MAPVARS if (len(rs) <= 1 or tier == "thorough") else MAPVARS[:1] + MAPVARS[2:3]):
                     if tier == "quick" and len(rs) == 2 and (bi + len(bools)) % 2:
